@@ -338,6 +338,33 @@ func runWatchJob(c *Ctl, job *Job, idx int, res *RunResult, pre *watchPre) {
 	if len(execs) != 1 {
 		c.Violate("C20", "initial-run", "the watcher must run its task once when it starts: %d command executions", len(execs))
 	}
+	// what the watcher registered with the kernel (the real inotify instance behind fsnotify; read
+	// from /proc/self/fdinfo) is exactly the selected set: one watch per selected path
+	registered := func() int { return inotifyWatches(pre.inoFDs) }
+	if n := registered(); n >= 0 && pre.baseWatches >= 0 {
+		if n != len(want) {
+			c.Violate("C20", "registered-paths", "the watcher selected %d path(s) %v but registered %d watch(es) with the kernel", len(want), relAll(pre.root, want), n)
+		}
+		c.Count("c20_registration_checked")
+	}
+	grewFor := ""
+	var unselectedChildren []string
+	{
+		sel := map[string]bool{}
+		for _, p := range want {
+			sel[p] = true
+		}
+		for _, f := range w.Files {
+			if strings.HasSuffix(f, "/") {
+				continue
+			}
+			full := pre.root + "/" + f
+			if !sel[full] && sel[filepath.Dir(full)] {
+				unselectedChildren = append(unselectedChildren, full)
+			}
+		}
+		sort.Strings(unselectedChildren)
+	}
 	names := append([]string(nil), want...)
 	expected := map[string]int{} // "eventname path" -> number of subscribed events of that kind
 	noise := false
@@ -350,6 +377,16 @@ func runWatchJob(c *Ctl, job *Job, idx int, res *RunResult, pre *watchPre) {
 		target := names[c.Ch.Choose(len(names), "event-path")]
 		if st, err := os.Stat(target); err == nil && st.IsDir() && c.Ch.Bool(1, 2, "child-of-dir") {
 			target = target + "/new-" + genWord(c.Ch, 4)
+		}
+		if ev.Op == 1 && len(unselectedChildren) > 0 && c.Ch.Bool(1, 2, "create-event-for-unselected-child") {
+			// a create event for a file that lies in an observed directory but is itself not
+			// selected by the patterns (the kernel reports children of a watched directory): the
+			// file must never become an observed path of its own
+			target = unselectedChildren[c.Ch.Choose(len(unselectedChildren), "which-child")]
+			if grewFor == "" {
+				grewFor = target
+			}
+			c.Count("c20_create_events_for_unselected_children")
 		}
 		if w.Relative {
 			target = relOne(pre.root, target)
@@ -446,6 +483,12 @@ func runWatchJob(c *Ctl, job *Job, idx int, res *RunResult, pre *watchPre) {
 		}
 	}
 	_ = noise
+	if grewFor != "" && pre.baseWatches >= 0 {
+		if n := registered(); n > len(want) {
+			c.Violate("C20", "observed-set-grew", "a create event was delivered for %s, which lies in an observed directory but is not selected by the patterns, and the watcher now has %d kernel watches for %d selected path(s)", relOne(pre.root, grewFor), n, len(want))
+		}
+		c.Count("c20_growth_checked")
+	}
 	// C06 for every run of the task: command, then (iff it succeeded) the after commands, once each
 	if w.NAfter > 0 {
 		byG := map[int64][]*ExecInfo{}
@@ -585,15 +628,18 @@ func relAll(root string, ps []string) []string {
 // watchPre: everything that must be created outside the bubble (real tree, real fsnotify watcher,
 // feeder goroutine).
 type watchPre struct {
-	w        *WatchWorld
-	root     string
-	watcher  *watch.Watcher
-	w2used   bool
-	watcher2 *watch.Watcher // same patterns and events, its own task, served by the same runner later on
-	selected []string
-	err      error
-	stop     chan struct{}
-	oldwd    string
+	w       *WatchWorld
+	root    string
+	watcher *watch.Watcher
+	w2used  bool
+	// inoFDs: descriptors of the inotify instance(s) behind the first watcher; baseWatches < 0: unknown
+	inoFDs      []string
+	baseWatches int
+	watcher2    *watch.Watcher // same patterns and events, its own task, served by the same runner later on
+	selected    []string
+	err         error
+	stop        chan struct{}
+	oldwd       string
 }
 
 func prepareWatch(ch *Choices, job *Job, idx int) *watchPre {
@@ -638,6 +684,7 @@ func prepareWatch(ch *Choices, job *Job, idx int) *watchPre {
 		}
 	}
 	t := buildRealTask(&TaskSpec{Name: "wt", NCmd: 1, NAfter: pre.w.NAfter})
+	fdsBefore := inotifyFDs()
 	pollersBefore := countPollers()
 	wt, err := watch.NewWatcher("w", pre.w.Events, abs(pre.w.Include), abs(pre.w.Exclude), t)
 	if err != nil {
@@ -645,6 +692,14 @@ func prepareWatch(ch *Choices, job *Job, idx int) *watchPre {
 		return pre
 	}
 	pre.watcher = wt
+	// the inotify instance(s) behind this watcher: the descriptors that did not exist before
+	pre.baseWatches = -1
+	for fd := range inotifyFDs() {
+		if !fdsBefore[fd] {
+			pre.inoFDs = append(pre.inoFDs, fd)
+			pre.baseWatches = 0
+		}
+	}
 	// fsnotify's reader goroutine captures its channels in deferred calls when it starts: wait
 	// until it sits in its poller before the event channel is substituted inside the bubble
 	for i := 0; i < 4000 && countPollers() <= pollersBefore; i++ {
@@ -710,4 +765,32 @@ func anyTrue(bs []bool) bool {
 		}
 	}
 	return false
+}
+
+// inotifyFDs: the descriptors of this process that are inotify instances.
+func inotifyFDs() map[string]bool {
+	out := map[string]bool{}
+	ents, err := os.ReadDir("/proc/self/fd")
+	if err != nil {
+		return out
+	}
+	for _, e := range ents {
+		if link, err := os.Readlink("/proc/self/fd/" + e.Name()); err == nil && link == "anon_inode:inotify" {
+			out[e.Name()] = true
+		}
+	}
+	return out
+}
+
+// inotifyWatches: number of watches held by the given inotify descriptors (from /proc/self/fdinfo).
+func inotifyWatches(fds []string) int {
+	n := 0
+	for _, fd := range fds {
+		data, err := os.ReadFile("/proc/self/fdinfo/" + fd)
+		if err != nil {
+			return -1
+		}
+		n += strings.Count(string(data), "inotify wd:")
+	}
+	return n
 }
